@@ -141,7 +141,13 @@ class Aff:
                     return None
             return Lin.const(c) if rest is None else rest.scale(c)
         if k in ("zext", "sext", "trunc", "ptrtoint"):
-            return self.scev(s["op"])
+            inner = s["op"]
+            if k in ("zext", "sext") and inner.get("k") == "rec" and (inner.get("w") or 64) < 32 and not inner.get("nuw" if k == "zext" else "nsw"):
+                # a recurrence in narrow arithmetic that may wrap (`i & 1` is zext of a 1-bit recurrence): its value is not the affine form
+                return None
+            if k == "trunc" and (s.get("w") or 64) < 32 and inner.get("k") != "c":
+                return None
+            return self.scev(inner)
         if k == "rec":
             if not s.get("affine") or len(s["ops"]) != 2:
                 return None
